@@ -57,6 +57,7 @@ def c_side(repo):
     structs = {}
     funs = {}
     enums = set()
+    scalars = {}
     for x in d["inner"]:
         loc = x.get("loc", {})
         f = loc.get("file") or loc.get("spellingLoc", {}).get("file") or loc.get("expansionLoc", {}).get("file")
@@ -89,10 +90,23 @@ def c_side(repo):
                 structs[x["name"]] = recs[rid]
             elif x["type"]["qualType"].startswith("enum "):
                 enums.add(x["name"])
+            else:
+                # a typedef of a scalar type (typedef int ssignal;): parameters written with the typedef name have the
+                # width of what it stands for NOW
+                u = (x["type"].get("desugaredQualType") or x["type"]["qualType"]).replace("const ", "").strip()
+                if u in CT:
+                    scalars[x["name"]] = u
         elif k == "FunctionDecl":
+            if x.get("storageClass") == "static":
+                continue    # internal linkage (e.g. static inline in a header): not a symbol of the shared library
             params = [c["type"]["qualType"] for c in x.get("inner", []) if c.get("kind") == "ParmVarDecl"]
             ret = x["type"]["qualType"].split("(")[0].strip()
             funs[x["name"]] = (ret, params)
+
+    def resolve(q):
+        return re.sub(r"\b([A-Za-z_]\w*)\b", lambda m_: scalars.get(m_.group(1), m_.group(1)), q)
+    funs = {n: (resolve(r), [resolve(p_) for p_ in ps_]) for n, (r, ps_) in funs.items()}
+    structs = {n: [(fn_, resolve(t_)) for fn_, t_ in fl_] for n, fl_ in structs.items()}
     return structs, funs, enums
 
 
